@@ -99,7 +99,10 @@ def resStep (st : ContState) (t : Tokens) (impl : Option String) : ContState × 
         | [l1, l2] =>
           let k1 := parseEvList ((tokenize l1).drop 3)
           let k2 := parseEvList ((tokenize l2).drop 3)
-          if k1 ++ k2 == rs.r.evs.toList then [] else ["C01 split: halves do not partition the reservoir"]
+          let f1 := ((kvGet (tokenize l1) "failed").bind String.toNat?).getD 0
+          let f2 := ((kvGet (tokenize l2) "failed").bind String.toNat?).getD 0
+          (if k1 ++ k2 == rs.r.evs.toList then [] else ["C01 split: halves do not partition the reservoir"]) ++
+          (if f1 == rs.r.failed && f2 == rs.r.failed then [] else ["C02 split: a half of a split payload lost the failed-attempt counter"])
         | _ => ["split: unparsable implementation output"]
     (st, { model := dumpRes r1 ++ " | " ++ dumpRes r2, specFails := fails })
   | _ => (st, { model := "bad-op" })
